@@ -122,3 +122,8 @@ def run(R, ctx):
             R.bad('R12.3', f"entry:{e.path}", f"public entry {e.path} reaches log::set_max_level outside the function that holds the specification write lock "
                   f"(chain: {cg.chain(e.path, GATE)})", where=e.loc())
     R.ok('R12.3', 'entries', f"no public entry other than {sorted(EXEMPT)} reaches the gate outside {sorted(wpaths)}")
+    # 'one specification as a whole': the store replaces every field of the active specification (shared with R02.6/R05.3)
+    R.rule('R12.5', 'update_from replaces every field (shared with R02.6)')
+    import c02 as _c02
+    _c02.fields(Relabel(R, {'R02.6': 'R12.5'}), ctx)
+
